@@ -42,7 +42,9 @@ fn inline(out: &mut String, r: &mut Rng, depth: usize, in_cell: bool) {
     let k = if depth == 0 { r.below(9) } else { r.below(24) };
     match k {
         0..=3 => {
-            node(out, "text", sp(r), &hs(r));
+            // the parser leaves zero-length text nodes inside links (after a code span + hard break, after an escape)
+            let lit = if r.chance(1, 16) { "-".to_string() } else { hs(r) };
+            node(out, "text", sp(r), &lit);
             end(out);
         }
         4 => {
